@@ -8,6 +8,8 @@ no odk:prefix/delimiter, no custom attributes or namespaces).
 """
 from __future__ import annotations
 
+import re
+
 import itertools
 
 from .. import common, drive, gen, hostile, render, xf
@@ -180,6 +182,11 @@ def run_case(ctx, rng, mask, i, channel, argmode, hostile_mode, use_alias):
         ctx.ctr("rejected")
         if not o.exc_is_pyxform:
             ctx.viol(f"internal-exception:{o.exc_type}", o.brief(), wit())
+        elif not hostile_mode:
+            # every settings row built here is valid by construction (markers, well-formed URIs, declared prefixes): a refusal means that some
+            # setting - or a combination of two - did not make it into the header, which is what the property is about
+            ctx.case(sig=sig + "|refused")
+            ctx.viol("valid-settings-refused:" + "-".join(re.sub(r"'[^']*'", "X", o.exc_msg or "").split()[:6]), f"settings {sorted(k for k in form.settings)} (entity sheet: {bool(form.entities)}): {o.brief()[:260]}", wit())
         return
     try:
         p = xf.Parsed(o.xform)
